@@ -640,8 +640,8 @@ def self_check(cases):
             o = out[pos] if pos < len(out) else ""
             pos += 1
             if o.startswith("err:") and "size_type truncates the size" in o.split("\t")[0]:
-                truncated = True
-            elif o.startswith("invalid") or o.startswith("bad-op") or (o.startswith("err:") and not truncated):
+                truncated = True        # from here on model and spec state of this history drift apart
+            elif not truncated and (o.startswith("invalid") or o.startswith("bad-op") or o.startswith("err:")):
                 bad.append((ln, o))
     if bad:
         raise lib.MachineryError("generator produced %d lines that violate a precondition or make the model fail, "
